@@ -61,23 +61,30 @@ impl SwiftField for Field11R {
         // (00-49 -> 20yy, 50-99 -> 19yy)
         let date = parse_date_yymmdd(&date_str)?;
 
-        // Parse optional session number (4!n)
-        let session_number =
-            if remaining.len() >= 4 && remaining[..4].chars().all(|c| c.is_ascii_digit()) {
-                let session = Some(remaining[..4].to_string());
-                remaining = &remaining[4..];
-                session
-            } else {
-                None
-            };
-
-        // Parse optional input sequence number (6!n)
-        let input_sequence_number =
-            if remaining.len() >= 6 && remaining[..6].chars().all(|c| c.is_ascii_digit()) {
-                Some(remaining[..6].to_string())
-            } else {
-                None
-            };
+        // Parse optional session number (4!n) and optional input sequence number (6!n):
+        // what follows the date is all digits and is exactly one of them, both, or nothing
+        if !remaining.chars().all(|c| c.is_ascii_digit()) {
+            return Err(ParseError::InvalidFormat {
+                message: "Field 11R session and sequence numbers must be digits".to_string(),
+            });
+        }
+        let (session_number, input_sequence_number) = match remaining.len() {
+            0 => (None, None),
+            4 => (Some(remaining.to_string()), None),
+            6 => (None, Some(remaining.to_string())),
+            10 => (
+                Some(remaining[..4].to_string()),
+                Some(remaining[4..].to_string()),
+            ),
+            _ => {
+                return Err(ParseError::InvalidFormat {
+                    message: format!(
+                        "Field 11R expects [4!n][6!n] after the date, found {} characters",
+                        remaining.len()
+                    ),
+                });
+            }
+        };
 
         Ok(Field11R {
             message_type,
@@ -187,23 +194,30 @@ impl SwiftField for Field11S {
         // (00-49 -> 20yy, 50-99 -> 19yy)
         let date = parse_date_yymmdd(&date_str)?;
 
-        // Parse optional session number (4!n)
-        let session_number =
-            if remaining.len() >= 4 && remaining[..4].chars().all(|c| c.is_ascii_digit()) {
-                let session = Some(remaining[..4].to_string());
-                remaining = &remaining[4..];
-                session
-            } else {
-                None
-            };
-
-        // Parse optional input sequence number (6!n)
-        let input_sequence_number =
-            if remaining.len() >= 6 && remaining[..6].chars().all(|c| c.is_ascii_digit()) {
-                Some(remaining[..6].to_string())
-            } else {
-                None
-            };
+        // Parse optional session number (4!n) and optional input sequence number (6!n):
+        // what follows the date is all digits and is exactly one of them, both, or nothing
+        if !remaining.chars().all(|c| c.is_ascii_digit()) {
+            return Err(ParseError::InvalidFormat {
+                message: "Field 11S session and sequence numbers must be digits".to_string(),
+            });
+        }
+        let (session_number, input_sequence_number) = match remaining.len() {
+            0 => (None, None),
+            4 => (Some(remaining.to_string()), None),
+            6 => (None, Some(remaining.to_string())),
+            10 => (
+                Some(remaining[..4].to_string()),
+                Some(remaining[4..].to_string()),
+            ),
+            _ => {
+                return Err(ParseError::InvalidFormat {
+                    message: format!(
+                        "Field 11S expects [4!n][6!n] after the date, found {} characters",
+                        remaining.len()
+                    ),
+                });
+            }
+        };
 
         Ok(Field11S {
             message_type,
@@ -353,9 +367,9 @@ impl SwiftField for Field11 {
         Self: Sized,
     {
         // Field 11 requires at least 9 characters (3 for MT + 6 for date)
-        if input.len() < 9 {
+        if input.len() != 9 {
             return Err(ParseError::InvalidFormat {
-                message: "Field 11 requires at least 9 characters (3 for MT + 6 for date)"
+                message: "Field 11 requires exactly 9 characters (3 for MT + 6 for date)"
                     .to_string(),
             });
         }
